@@ -118,7 +118,7 @@ func checkC14(e *core.Env) {
 						continue
 					}
 					e.Begin("matrix", caseNo, fmt.Sprintf("%s code=%d reqCancelled=%v rpcExpired=%v", rend.name, code, reqCancelled, rpcExpired))
-					sc := &Script{Kind: Unary, UnaryReq: &tpb.Message{Payload: []byte("c14")}, Ret: Ret{How: "status", Code: code, Msg: "m"}}
+					sc := &Script{Kind: Unary, UnaryReq: &tpb.Message{Payload: []byte("c14")}, Ret: Ret{How: "status", Code: code, Msg: []string{"m", "r\u00e9sum\u00e9 introuvable", "m", "\u65e5\u672c\u8a9e: not there", "a:b"}[caseNo%5]}}
 					if rpcExpired {
 						sc.Handler = []Op{{Op: "waitctx"}}
 					}
